@@ -287,6 +287,7 @@ def run_case(case, scratch=None):
                      outcomes=case["outcomes"], always_fail=case.get("always_fail"),
                      previous=case.get("previous"), scratch=scratch)
     sim.initial_pools = simmod.Pools(case["pools"].get("shared", ()), case["pools"].get("own", {}))
+    sim.fail_first = dict(case.get("fail_first") or {})
     sim.run()
     sim.info = scenario_info(scenario)
     return sim
@@ -883,7 +884,7 @@ NONTRIVIAL = {
 
 
 def make_run(prop, bias, scenario_filter=None, quick_cases=1280, thorough_cases=16000, per_shard_scenarios=(7, 18),
-             enumerate_failures=False, random_scenarios_per_shard=(2, 6)):
+             enumerate_failures=False, random_scenarios_per_shard=(2, 6), flaky_retries=False):
     def run(ctx):
         simmod.setup()
         items = catalogue(ctx.tier)
@@ -936,6 +937,28 @@ def make_run(prop, bias, scenario_filter=None, quick_cases=1280, thorough_cases=
                 ctx.record_violation(violation, case)
         ctx.hyp(cases(mine, bias), body, ctx.budget(quick_cases, thorough_cases), name="traverse",
                 shrink=(ctx.tier == "thorough"))
+        if flaky_retries:
+            # enumerated, not sampled: every test of the shard's first multi-worker scenarios flaky (first execution
+            # fails, the retry passes) with retries on, concurrency limited to one and tries that together last longer
+            # than one timeout - the situation in which a waiting worker must keep waiting
+            names = [n for n in sorted(mine) if len(mine[n].nets.split()) >= 2][:(1 if ctx.tier == "quick" else 4)]
+            for name in names:
+                scenario = mine[name]
+                info = scenario_info(scenario)
+                for ident in info["idents"]:
+                    for tries in (2, 3):
+                        for duration in ("0.99T", "0.6T"):
+                            case = {"scenario_name": name, "scenario": scenario.to_json(),
+                                    "run": {"test_timeout": 1, "max_tries": tries, "max_concurrent_tries": 1},
+                                    "pools": {"mode": "empty", "shared": [], "own": {}}, "durations": [duration],
+                                    "outcomes": ["PASS"], "always_fail": {}, "fail_first": {ident: "FAIL"}}
+                            try:
+                                body(case)
+                            except Violation as violation:
+                                if not ctx.record_violation(violation, case):
+                                    continue
+            ctx.exhaustive_parts.append("every test of the shard's first multi-worker scenario(s) flaky (first execution "
+                                        "FAIL) with max_tries 2/3, max_concurrent_tries 1 and durations 0.99T/0.6T")
         if enumerate_failures:
             # enumerated, not sampled: every test of the scenario failing persistently, with and without retries
             # (quick: the shard's first scenario only)
@@ -1043,7 +1066,7 @@ BIASES = {
 }
 DRIVER_ARGS = {
     "C02": {"enumerate_failures": True},
-    "C04": {"scenario_filter": lambda name, scenario: len(scenario.nets.split()) >= 2},
+    "C04": {"scenario_filter": lambda name, scenario: len(scenario.nets.split()) >= 2, "flaky_retries": True},
     "C05": {"scenario_filter": lambda name, scenario: any(k in name.replace("nongui", "") for k in ("gui", "get", "finale")),
             "quick_cases": 1280},
     "C08": {"scenario_filter": lambda name, scenario: len(scenario.nets.split()) >= 2},
